@@ -113,6 +113,19 @@ def r113_predicates(ctx, res, fname, want_same, fi, direct):
         got = _classify_predicate(_resolve_local(fi, r.value), fi, ta, tb)
         lab = "%s(%s, %s)" % (fname, ta, tb)
         if got is None:
+            ex = _resolve_local(fi, r.value)
+            via_angle = [c for c in ast.walk(ex) if isinstance(c, ast.Call) and (
+                (isinstance(c.func, ast.Name) and c.func.id in ("angle", "acute")) or
+                (isinstance(c.func, ast.Attribute) and c.func.attr == "angle"))]
+            tol = any(isinstance(c, ast.Call) and isinstance(c.func, ast.Name) and c.func.id in ("null", "get_eps") for c in ast.walk(ex))
+            if via_angle and tol:
+                res.ob("R11.3", fi.where(r), lab, False, "decided by comparing an inverse-cosine angle with the tolerance")
+                res.violation("R11.3", fi, r,
+                              "%s is decided by comparing `%s` with the tolerance: the angle comes from acos of a quotient that rounds "
+                              "just below 1 for exactly parallel directions (acos(1 - 2**-53) is about 1.5e-8, far above eps = 1e-10), so the "
+                              "predicate depends on float rounding of |u||v| instead of the direction vectors; use the vector predicate" % (
+                                  lab, txt(via_angle[0])[:40]), construct=lab + " decided through acos")
+                continue
             raise AnalysisError("%s: `%s` is not a recognised vector predicate on the operands' direction vectors"
                                 % (fi.where(r), txt(r.value)))
         ok = got == want
